@@ -88,6 +88,8 @@
 //! let _ = request.respond(response);
 //! ```
 #![forbid(unsafe_code)]
+// `tiny_http_verif` is a verification-only cfg flag, see src/verif.rs
+#![allow(unknown_lints, unexpected_cfgs)]
 #![deny(rust_2018_idioms)]
 #![allow(clippy::match_like_matches_macro)]
 
